@@ -643,3 +643,80 @@ Lemma demux_collision_repaired :
   snd (demux_run d_init [Submit 0 7 IoOk; Submit 1 7 IoOk; Arrive 8; Arrive 7]) =
   [Sent 0 7; Sent 1 8; Deliver 1 (RReply 7 8); Deliver 0 (RReply 7 7)].
 Proof. reflexivity. Qed.
+
+(* ---- the code as found behaves like the repaired code as long as no
+   submission carries an id that is in flight ------------------------------ *)
+Definition lift (m : list (N * N)) : list (N * (N * N)) :=
+  map (fun e => (fst e, (fst e, snd e))) m.
+
+Definition sim (os : ostate) (s : dstate) : Prop :=
+  d_map s = lift (o_map os) /\ d_conn s = o_conn os /\ o_dead os = false.
+
+Lemma map_find_lift : forall m k, map_find k (lift m) = option_map (fun w => (k, w)) (map_find k m).
+Proof.
+  induction m as [|[k' w] r IH]; intros k; [reflexivity|]. simpl.
+  destruct (k' =? k) eqn:E; [apply N.eqb_eq in E; subst; reflexivity | apply IH].
+Qed.
+
+Lemma map_mem_lift : forall m k, map_mem k (lift m) = map_mem k m.
+Proof. intros m k. unfold map_mem. rewrite map_find_lift. destruct (map_find k m); reflexivity. Qed.
+
+Lemma map_remove_lift : forall m k, map_remove k (lift m) = lift (map_remove k m).
+Proof.
+  induction m as [|[k' w] r IH]; intros k; [reflexivity|]. simpl.
+  destruct (k' =? k); [apply IH | simpl; f_equal; apply IH].
+Qed.
+
+Lemma teardown_lift : forall m, teardown (lift m) = oteardown RErrTcp m.
+Proof. induction m as [|[k w] r IH]; [reflexivity|]. simpl. f_equal. exact IH. Qed.
+
+Lemma lenN_lift : forall m, lenN (lift m) = lenN m.
+Proof. intros m. unfold lenN, lift. rewrite map_length. reflexivity. Qed.
+
+Lemma sim_step : forall os s e, sim os s ->
+  match e with
+  | Submit _ id _ => map_mem id (o_map os) = false /\ lenN (o_map os) < 65536
+  | _ => True
+  end ->
+  snd (odemux_step os e) = snd (demux_step s e) /\ sim (fst (odemux_step os e)) (fst (demux_step s e)).
+Proof.
+  intros os s e [HM [HC HD]] Pre. destruct s as [dm dc]. simpl in HM, HC. subst dm dc.
+  destruct e as [w id i| wire |]; unfold odemux_step, demux_step; rewrite HD; cbn [d_map d_conn].
+  - destruct Pre as [PM PL].
+    destruct (negb (o_conn os) && io_eqb i IoConnFail).
+    { simpl. split; [reflexivity|]. split; [reflexivity|]. split; [reflexivity|exact HD]. }
+    rewrite PM. rewrite lenN_lift.
+    assert (G : (65536 <=? lenN (o_map os)) = false) by (apply N.leb_gt; exact PL). rewrite G.
+    cbn [probe]. rewrite map_mem_lift, PM.
+    destruct (io_eqb i IoWriteFail); simpl.
+    + split; [f_equal; symmetry; apply teardown_lift|]. split; [reflexivity|]. split; reflexivity.
+    + split; [reflexivity|]. split; [reflexivity|]. split; reflexivity.
+  - destruct (o_conn os) eqn:EC.
+    + rewrite map_find_lift. destruct (map_find wire (o_map os)) as [w|]; simpl.
+      * split; [reflexivity|]. split; [apply map_remove_lift|]. split; reflexivity.
+      * split; [reflexivity|]. split; [reflexivity|]. split; [simpl; congruence | exact HD].
+    + simpl. split; [reflexivity|]. split; [reflexivity|]. split; [simpl; congruence | exact HD].
+  - destruct (o_conn os) eqn:EC; simpl.
+    + split; [symmetry; apply teardown_lift|]. split; [reflexivity|]. split; reflexivity.
+    + split; [reflexivity|]. split; [reflexivity|]. split; [simpl; congruence | exact HD].
+Qed.
+
+Lemma sim_run : forall evs os s, sim os s -> no_collision os evs ->
+  snd (odemux_run os evs) = snd (demux_run s evs) /\
+  sim (fst (odemux_run os evs)) (fst (demux_run s evs)).
+Proof.
+  induction evs as [|e r IH]; intros os s HS HN; [split; [reflexivity | exact HS]|].
+  destruct HN as [Pre HN]. destruct (sim_step os s e HS Pre) as [E1 S1].
+  simpl. destruct (odemux_step os e) as [os1 oo1]. destruct (demux_step s e) as [s1 o1].
+  simpl in E1, S1, HN. destruct (IH os1 s1 S1 HN) as [E2 S2].
+  destruct (odemux_run os1 r) as [os2 oo2]. destruct (demux_run s1 r) as [s2 o2].
+  simpl in *. subst. split; [reflexivity | exact S2].
+Qed.
+
+Theorem orig_agrees_without_collision : forall evs, no_collision o_init evs ->
+  snd (odemux_run o_init evs) = snd (demux_run d_init evs) /\
+  o_dead (fst (odemux_run o_init evs)) = false.
+Proof.
+  intros evs H. assert (S0 : sim o_init d_init) by (split; [reflexivity | split; reflexivity]).
+  destruct (sim_run evs o_init d_init S0 H) as [E [_ [_ D]]]. split; assumption.
+Qed.
